@@ -119,6 +119,10 @@ def classStmt (F : Facts) (D : Decls) (e : CEnv) : Stmt → Option String × CEn
           | .method h => if isTmp && !recvOK D ⟨t, false⟩ h then some "pointer-method-on-value" else none
           | _ => none), e)
      | none => (none, e))
+  | .mval _ (.ifc i) m =>
+    (match clook e i with
+     | .ifc _ (some d) _ _ => (dispatchClass F D d m, e)
+     | _ => (none, e))
   | .mval x r m =>
     (match operand e r with
      | some (t, v, isTmp) =>
